@@ -319,7 +319,7 @@ impl Exec {
                 let line = self.read();
                 self.last_read_racy = racy;
                 self.last_real_read = line.clone();
-                Some(if self.poisoned { "poisoned".to_string() } else if racy { "racy".to_string() } else if self.tainted { "stale".to_string() } else { line })
+                Some(if self.poisoned { "poisoned".to_string() } else if racy { "racy".to_string() } else if self.tainted { if self.ntypes <= 1 { "stale".to_string() } else { "any".to_string() } } else { line })
             }
             Op::Xm => {
                 const MID: [&str; 2] = ["zonewriter.meta_written", "zonewriter.cols_written"];
@@ -378,27 +378,16 @@ impl Exec {
         r.col("k").iter().filter_map(|v| v.as_i64()).collect()
     }
 
-    /// The real engine answers reads nondeterministically while some in-flight segment has no
-    /// files yet and published segment directories exist (finding C03-inflight-hides-published):
-    /// such reads are not compared with the model; both sides print `racy`.
+    /// Before the repair 4f45061 the engine answered reads nondeterministically while an in-flight
+    /// segment had no files next to segment directories on disk (finding
+    /// C03-inflight-hides-published, fixed); such reads were not compared with the model. They are
+    /// compared now.
     pub fn racy_state(&mut self) -> bool {
-        let out = self.outstanding_jobs();
-        let unwritten = if self.ntypes <= 1 {
-            out >= 2 || (out == 1 && self.where_parked() == Some(0))
-        } else {
-            // an in-flight segment never has files for the types it does not hold
-            out >= 1
-        };
-        if !unwritten {
-            return false;
-        }
-        std::fs::read_dir(self.s.shard_data_dir(0))
-            .map(|rd| rd.flatten().any(|e| e.file_name().to_string_lossy().chars().all(|c| c.is_ascii_digit()) && e.path().is_dir()))
-            .unwrap_or(false)
+        false
     }
 
-    /// A flush job is between "files written" and "passive buffer released" (COUNT double-counts
-    /// there: finding C03-count-dup-flush-window).
+    /// The head job is between "files written" and "passive buffer released" (COUNT sees its rows
+    /// twice: finding C03-count-dup-flush-window).
     pub fn flush_window(&mut self) -> bool {
         matches!(self.where_parked(), Some(1..=3))
     }
